@@ -311,7 +311,40 @@ fn int_boundary_values() -> Vec<u64> {
     v
 }
 
+
+/// A Huffman-coded literal whose number of *bits* does not fit the 32 bit integers a decoder might count them in: 2^29
+/// bytes and one more. Whatever the answer (the decoded string, or a refusal for its size), computing it must not overflow.
+fn check_huge_huffman(len: usize, ctx: &mut Ctx) -> Verdict {
+    ctx.eval();
+    let case = || json!({"kind": "huge_huffman", "len": len});
+    let got = catch(move || {
+        let mut lit = Vec::with_capacity(len + 16);
+        rq::put_int(&mut lit, 7, 1, len as u64, 0);
+        // 00000 is the code of '0'; eight of them make five bytes of zeros
+        lit.resize(lit.len() + len, 0u8);
+        let mut b: &[u8] = &lit;
+        prefix_string_decode(8, &mut b).map(|v| v.len()).map_err(|e| format!("{e:?}"))
+    })
+    .map_err(|p| Failure::direct(format!("panic in prefix_string::decode on a Huffman-coded literal of {len} bytes: {p}"), case()))?;
+    match got {
+        // 8 * len bits, 5 per symbol, the rest (all zero bits) is not padding
+        Ok(n) if len * 8 % 5 == 0 && n == len * 8 / 5 => ctx.class("huge_huffman_literal_decoded"),
+        Ok(n) => return Err(Failure::direct(format!("a literal of {len} zero bytes decoded to {n} symbols"), case())),
+        Err(_) => ctx.class("huge_huffman_literal_refused"),
+    }
+    ctx.nontrivial(&("huge_huffman", len));
+    Ok(())
+}
+
 fn exhaustive(ctx: &mut Ctx, shard: usize, nshards: usize) -> Verdict {
+    if shard == 1 % nshards {
+        if ctx.tier == crate::runner::Tier::Thorough {
+            // (just below the limit the whole literal is decoded: several seconds)
+            check_huge_huffman((1 << 29) - 5, ctx)?;
+        }
+        check_huge_huffman(1 << 29, ctx)?;
+        check_huge_huffman((1 << 29) + 5, ctx)?;
+    }
     // Huffman payloads
     if shard == 0 {
         check_huff(&[], ctx)?;
@@ -500,6 +533,7 @@ fn run_direct(d: &Value, ctx: &mut Ctx) -> Verdict {
     let size = d.get("size").and_then(|x| x.as_u64()).unwrap_or(8) as u8;
     let flags = d.get("flags").and_then(|x| x.as_u64()).unwrap_or(0) as u8;
     match d.get("kind").and_then(|k| k.as_str()) {
+        Some("huge_huffman") => check_huge_huffman(d["len"].as_u64().unwrap_or(1 << 29) as usize, ctx),
         Some("huff") => check_huff(&unhex(d["payload"].as_str().unwrap_or("")), ctx),
         Some("huff_paths") => check_huff_paths(&unhex(d["payload"].as_str().unwrap_or("")), ctx),
         Some("str") => check_str_roundtrip(size, flags, &unhex(d["s"].as_str().unwrap_or("")), ctx),
